@@ -132,9 +132,25 @@ package variablesvalidation
 
 // named types: scalar kinds, enums, input objects
 //@ func variablesVisitor.traverseNamedTypeNode
-//@   requires v != nil && v.definition != nil
+//@   requires v != nil && v.definition != nil && jsonValue != nil
 //@   assumes typeRefsOK(v.definition)
+//@   let tn = bytesStr(typeName)
+//@   let jt = jtype(global(jver), jsonValue)
+//@   let integral = jintegral(global(jver), jsonValue)
+//@   ghost var g_kind int = 0
+//@   ghost var g_found bool = false
+//@   at call Document.NodeByName: ghost g_kind = result0.Kind
+//@   at call Document.NodeByName: ghost g_found = result1
 //@   ensures {errors.are.sticky} old(v.err) != nil ==> v.err != nil
+//@   ensures {string.needs.string} old(v.err) == nil && g_found && g_kind == ast.NodeKindScalarTypeDefinition && tn == "String" ==> (v.err == nil <==> jt == astjson.TypeString)
+//@   ensures {float.needs.number} old(v.err) == nil && g_found && g_kind == ast.NodeKindScalarTypeDefinition && tn == "Float" ==> (v.err == nil <==> jt == astjson.TypeNumber)
+//@   ensures {boolean.needs.boolean} old(v.err) == nil && g_found && g_kind == ast.NodeKindScalarTypeDefinition && tn == "Boolean" ==> (v.err == nil <==> (jt == astjson.TypeTrue || jt == astjson.TypeFalse))
+//@   ensures {id.needs.string.or.number} old(v.err) == nil && g_found && g_kind == ast.NodeKindScalarTypeDefinition && tn == "ID" ==> (v.err == nil <==> (jt == astjson.TypeString || jt == astjson.TypeNumber))
+//@   ensures {int.needs.number} old(v.err) == nil && g_found && g_kind == ast.NodeKindScalarTypeDefinition && tn == "Int" && jt != astjson.TypeNumber ==> v.err != nil
+//@   ensures {int.accepts.integers} old(v.err) == nil && g_found && g_kind == ast.NodeKindScalarTypeDefinition && tn == "Int" && jt == astjson.TypeNumber && integral ==> v.err == nil
+//@   ensures {int.rejects.fractions} old(v.err) == nil && g_found && g_kind == ast.NodeKindScalarTypeDefinition && tn == "Int" && jt == astjson.TypeNumber && !integral ==> v.err != nil
+//@   ensures {enum.needs.string} old(v.err) == nil && g_found && g_kind == ast.NodeKindEnumTypeDefinition && jt != astjson.TypeString ==> v.err != nil
+//@   ensures {input.object.needs.object} old(v.err) == nil && g_found && g_kind == ast.NodeKindInputObjectTypeDefinition && jt != astjson.TypeObject ==> v.err != nil
 //@   ensures {path.restored} len(v.path) == old(len(v.path))
 //@   modifies *
 //@   loop 0:
